@@ -89,6 +89,24 @@ func init() {
 					fs.WriteFile(p, []byte(strings.Replace(string(b), "resources:\n", "resources:\n- ../cfgonly\n", 1)))
 				}
 			}
+			if r.Intn(4) == 0 {
+				// a resource that others refer to is marked local-config: it takes part in the build (name references, variables,
+				// hashes) wherever its kustomization sits in the tree, and is dropped from the output at the very end only
+				for _, e := range t.Edges {
+					for _, g := range t.Res {
+						if g.ID == e.To && !g.Gen && (g.Kind == "ConfigMap" || g.Kind == "Secret") {
+							md, _ := g.Obj["metadata"].(Obj)
+							an, _ := md["annotations"].(Obj)
+							if an != nil {
+								an["config.kubernetes.io/local-config"] = "true"
+							}
+						}
+					}
+					if r.Intn(2) == 0 {
+						break
+					}
+				}
+			}
 			if t.PostWrite == nil && r.Intn(4) == 0 {
 				// a Component (its own resource, an annotation for everything accumulated so far, a generator that merges
 				// into nothing) used by one layer: part of the tree that is wrapped, moved and permuted
